@@ -83,7 +83,15 @@ def check(case):
     req1, req2 = case["req"]
     ea = case.get("event_align")
     if ea:
-        pre, perr = build.trace(build.calculator({"max_calc_step_size_feet": case["h"]}), build.shot(case["shot"]), max(req1["R"], req2["R"]), extra=True)
+        # (the trace asks for a 1e-12 s time step; should recording options ever slow the integration down, the step budget
+        # ends the placement instead of hanging the check - termination itself is C04's subject)
+        tsh = build.shot(case["shot"])
+        _, Exceeded = build.counting(tsh.atmo, int(40 * max(req1["R"], req2["R"]) / case["h"]) + 20000)
+        try:
+            pre, perr = build.trace(build.calculator({"max_calc_step_size_feet": case["h"]}), tsh, max(req1["R"], req2["R"]), extra=True)
+        except Exceeded:
+            pre, perr = [], None
+            r.label("event-align:trace-over-budget")
         evs = [i for i, p in enumerate(pre) if i >= 3 and (p.flag & 7) and i < len(pre) - (1 if perr is not None else 0)]
         if evs:
             i = evs[ea["pick"] % len(evs)]
